@@ -121,6 +121,14 @@ class World:
                 circs.append({"kind": "sym", "c": {"ops": [{"gate": {"g": "RX", "p": [{"sym": "theta"}]}, "q": [0]}], "n": n}})
             else:
                 circs.append({"kind": "zero", "c": {"ops": []}})
+        if r.random() < 0.2:
+            # two circuits using ONE custom gate name with different definitions (definitions are stored per circuit), both
+            # passing through the same runners / tracker in one process
+            nm = r.choice(["MyRot", "MyFixed", "MyDoubleAngle"])
+            g = {"custom": nm, "p": [r.choice([0.5, 1.25, 2.0])] if nm != "MyFixed" else []}
+            base = {"ops": [{"gate": g, "q": [r.randrange(n)]}], "n": n}
+            circs.append({"kind": "rand", "c": dict(base)})
+            circs.append({"kind": "rand", "c": {**base, "cv": 1}})
         cfg["circuits"] = circs
         pf = {"none": 0.0, "low": 0.1, "medium": 0.3}[cfg["faults"]]
         steps = []
@@ -267,6 +275,44 @@ class World:
         ctx.check(lo[0] <= j <= hi[0] and lo[1] <= c <= hi[1], "counter", re.sub(r"\[.*?\]", "", what).split(":")[0],
                   f"{what}: counters ({j},{c}) outside expected [{lo}..{hi}] (before: ({R['jobs']},{R['circs']}))")
         R["jobs"], R["circs"] = j, c
+
+    def _expect_growth(self, ctx, B, ents, deltas, what, peers_before):
+        """Counters of base runner B after a SUCCESSFUL call that asked for `ents` (model growth `deltas` each).
+        "grow by exactly the number of circuits and jobs actually run": a simulator may answer a circuit it has
+        evaluated before from memory, in which case that circuit was not run (and may or may not be counted - from the
+        outside both are indistinguishable from a run).  So: the growth must be the sum of the model growth over a set
+        S of the requested circuits that contains every circuit this runner has NOT successfully evaluated before; for a
+        stub-observed back-end the native invocations the peer saw must be exactly those of S or those of all circuits."""
+        full = (sum(d[0] for d in deltas), sum(d[1] for d in deltas))
+        j, c = self._read_counters(B)
+        grown = (j - B["jobs"], c - B["circs"])
+        seen = B.setdefault("seen_ok", set())
+        keys = [json.dumps(e.get("spec"), sort_keys=True, default=str) for e in ents]
+        ok = grown == full
+        if not ok and B["spec"]["kind"] != "shot" and len(ents) <= 6:
+            elig = [i for i, k in enumerate(keys) if k in seen]
+            fixed = [i for i in range(len(ents)) if i not in elig]
+            for mask in range(1 << len(elig)):
+                S = fixed + [i for b, i in enumerate(elig) if mask >> b & 1]
+                if grown == (sum(deltas[i][0] for i in S), sum(deltas[i][1] for i in S)):
+                    ok = True
+                    ctx.probe("answered-from-memory-not-counted")
+                    break
+        if not ok:
+            return self._expect_counters(ctx, B, (B["jobs"] + full[0], B["circs"] + full[1]), (B["jobs"] + full[0], B["circs"] + full[1]), what)
+        if B["spec"]["kind"] == "split":
+            observed = len(B["obj"].native_calls) - peers_before
+            if observed != full[1]:
+                # fewer native invocations than the request has native runs: either exactly what was counted (circuits
+                # answered from memory and not counted), or - counted as if run - at least the runs of every circuit this
+                # runner had not evaluated before
+                must = sum(d[1] for k, d in zip(keys, deltas) if k not in seen)
+                ctx.check(observed == grown[1] or (grown == full and must <= observed <= full[1]), "counter", "peer-invocations",
+                          f"{what}: the peer saw {observed} native sub-circuits, the request has {full[1]} native runs "
+                          f"({must} of them in circuits never evaluated before), counters grew by {grown}")
+                ctx.probe("answered-without-peer")
+        seen.update(keys)
+        B["jobs"], B["circs"] = j, c
 
     def _peer_count(self, R):
         B = self._base(R)
@@ -491,7 +537,7 @@ class World:
         ctx.check(ok, "unexpected-reject", what, lambda: f"{what}: valid request (n={n}, circuit {ent['c']!r}) raised {type(res).__name__}: {res}")
         with judge(ctx):
             self._check_measurement(ctx, ent, res, n, what, extra_ok=B["spec"]["kind"] == "shot" and B["spec"]["extra"] > 0)
-        self._expect_counters(ctx, B, (B["jobs"] + dj, B["circs"] + dc), (B["jobs"] + dj, B["circs"] + dc), what + (":inner" if R is not B else ""))
+        self._expect_growth(ctx, B, [ent], [(dj, dc)], what + (":inner" if R is not B else ""), peers)
         if R is not B:
             self._expect_counters(ctx, R, (R["jobs"] + 1, R["circs"] + 1), (R["jobs"] + 1, R["circs"] + 1), what + ":tracker-own")
             rets = [x for x in R["spy"].returned[spy_mark:] if x[0] == "run_and_measure"]
@@ -580,7 +626,7 @@ class World:
             ctx.check(isinstance(res, list) and len(res) == len(ents), "order", "result-count", f"{what}: {len(res)} results for {len(ents)} circuits")
             for i, (e, m, nreq) in enumerate(zip(ents, res, per)):
                 self._check_measurement(ctx, e, m, nreq, f"{what}#{i}", extra_ok=B["spec"]["kind"] == "shot" and B["spec"]["extra"] > 0)
-        self._expect_counters(ctx, B, (B["jobs"] + tot[0], B["circs"] + tot[1]), (B["jobs"] + tot[0], B["circs"] + tot[1]), what + (":inner" if R is not B else ""))
+        self._expect_growth(ctx, B, ents, deltas, what + (":inner" if R is not B else ""), peers)
         if B["spec"]["kind"] == "shot":
             seen = B["obj"].calls[peers:]
             ctx.check([c for c, _ in seen] == circuits and [k for _, k in seen] == per, "order", "peer-requests",
@@ -645,7 +691,7 @@ class World:
                     ctx.fail("refine", "bitstring-length" + (":zero-qubit" if ent["n"] == 0 else ""), f"{what}: key {k} for width {ent['n']}")
                 if "bits" in ent and p > 0:
                     ctx.check(tuple(k) == ent["bits"], "order", "shots-of-another-circuit", f"{what}: outcome {k} with p={p} for basis state {ent['bits']}")
-        self._expect_counters(ctx, B, (B["jobs"] + dj, B["circs"] + dc), (B["jobs"] + dj, B["circs"] + dc), what + (":inner" if R is not B else ""))
+        self._expect_growth(ctx, B, [ent], [(dj, dc)], what + (":inner" if R is not B else ""), peers)
         if R is not B:
             j, c = self._read_counters(R)
             ctx.check(j >= R["jobs"] and c >= R["circs"], "counter", "decreased", f"{what}: tracker counters decreased")
@@ -663,6 +709,7 @@ class World:
         if R["spec"]["kind"] in ("shot", "tracker") or ent["kind"] in ("sym", "zero"):
             ctx.log("wf", "noop")
             return
+        peers = self._peer_count(R)
         self._arm(st, R, step)
         if exact is None:
             ok, res = call(R["obj"].get_wavefunction, ent["c"])
@@ -683,7 +730,7 @@ class World:
             ctx.log("wf", "peer-fault")
             return
         ctx.check(ok, "unexpected-reject", what, lambda: f"{what}: raised {type(res).__name__}: {res} for {ent['c']!r}")
-        self._expect_counters(ctx, R, (R["jobs"] + dj, R["circs"] + dc), (R["jobs"] + dj, R["circs"] + dc), what)
+        self._expect_growth(ctx, R, [ent], [(dj, dc)], what, peers)
         if dj >= 2:
             ctx.probe("multi-segment")
         ctx.probe("wf-ok")
